@@ -101,6 +101,14 @@ def replay_lifecycle(rep, prop="C02"):
                 rep.violation("C02.RefusalIsNoop" if not ok else "C02.Move", det, replay=rp, sig={"clause": "C02.Move"})
             elif counts != hist:
                 rep.violation("C02.CountsAreHistogram", det, replay=rp, sig={"clause": "C02.CountsAreHistogram"})
+            elif ok and nedges % 7 == 0:
+                # growing the DAG afterwards (a new root, a new child) must leave every existing operator's state alone:
+                # in particular a completed operator never changes state again
+                extra1 = p.new_operator(None)
+                extra2 = p.new_operator([ops[0]])
+                got_c = tuple(p.runtime_status().operator_states[o].value for o in ops)
+                if got_c != b:
+                    rep.violation("C02.CompletedFinal.grow", dict(det, after_growth=got_c), replay=rp, sig={"clause": "C02.CompletedFinal.grow"})
     rep.extra["lifecycle_edges_replayed"] = nedges
     rep.extra["lifecycle_refusals_replayed"] = nrefused
     rep.extra["lifecycle_dags"] = len(by_dag)
